@@ -151,7 +151,9 @@ func c20Canon(src string) string {
 }
 
 // ---------- Markdown grammar ----------
-var c20Words = []string{"lorem", "ipsum", "Dolor", "x", "42", "a < b", "AT&T", "&amp;", "&copy;", "&#35;", `\&amp;`, `\&ouml;`, `\&#42;`, "&#38;lt;", "&#x26;amp;", `\&lbrace;\&lbrace; x \&rbrace;\&rbrace;`, "&amp;#42;", `\*not em\*`, `\<`, `\&`, `"quoted"`, "it's", "{{ x }}", "{{ secret }}", "{ y }", "a_b_c", "2*3", "`", "1 > 0", "c:\\dir", "<!-- c -->", "$", "#tag", "[brackets]", "(parens)", "~"}
+var c20Words = []string{"lorem", "ipsum", "Dolor", "x", "42", "a < b", "AT&T", "&amp;", "&copy;", "&#35;", `\&amp;`, `\&ouml;`, `\&#42;`, "&#38;lt;", "&#x26;amp;", `\&lbrace;\&lbrace; x \&rbrace;\&rbrace;`, "&amp;#42;", `\*not em\*`, `\<`, `\&`, `"quoted"`, "it's", "{{ x }}", "{{ secret }}", "{ y }", "a_b_c", "2*3", "`", "1 > 0", "c:\\dir", "<!-- c -->", "$", "#tag", "[brackets]", "(parens)", "~",
+	// text that only an extension beyond CommonMark/GFM would read as syntax: it must stay text
+	"{#anchor}", "{.wide}", "{key=val}", "[^1]", ":smile:", "==mark==", "^sup^", "H~2~O", "--", "---x", "...", "(c)", "*[HTML]: x", "$x^2$", "++ins++", "@user", "[[wiki]]"}
 
 func c20Word(r *Rng) string {
 	if r.Intn(3) == 0 {
@@ -208,9 +210,9 @@ func c20Blocks(r *Rng, depth int) string {
 		case x < 4:
 			bl = append(bl, c20Inline(r, 2))
 		case x < 5:
-			bl = append(bl, strings.Repeat("#", 1+r.Intn(6))+" "+c20Inline(r, 1))
+			bl = append(bl, strings.Repeat("#", 1+r.Intn(6))+" "+c20Inline(r, 1)+Pick(r, []string{"", "", "", " {#setup}", " {.wide}", " {env=prod}", " {#q} #", " #", " \\#"}))
 		case x < 6:
-			bl = append(bl, c20Inline(r, 0)+"\n"+Pick(r, []string{"===", "---"}))
+			bl = append(bl, c20Inline(r, 0)+Pick(r, []string{"", "", " {#only}", " {.c}"})+"\n"+Pick(r, []string{"===", "---"}))
 		case x < 7:
 			bl = append(bl, "```"+Pick(r, []string{"", "go", "html", "\\&amp;", "&#38;lt;"})+"\n"+Pick(r, []string{"x := a < b && c\n  indented {{ v }}\n", "<p>&amp;</p>\n\n\nafter blank\n", "tab\there\n"})+"```")
 		case x < 8:
